@@ -27,6 +27,8 @@ TRUSTED = ["ClientLTS.v is a hand model of AsyncIOClient.connect/_receive_loop/s
 ASSUMPTIONS = ["asyncio schedules every runnable task eventually (fairness) and wall-clock effects are outside the model",
                "the application does not cancel connect/send/close tasks and calls close() at most once",
                "build_network_map=False (no _seed_network_map task)"]
+ALWAYS_SEARCH = True      # the oracle re-reads the sessions the correspondence ran (cached): free, and it sees what the
+#                           control-flow model does not (which frames reach the callback)
 IMPORTS = "From NV Require Import Base ClientLTS CorrClientLTS."
 MAX_POS = 160        # injection positions per base session (an unchanged client has 30-60 event-loop steps per session;
                      # a changed one that never settles must not multiply the work by thousands)
@@ -54,7 +56,8 @@ def fault_specs(ctx):
     for s, o in zip(base, bobs):
         specs.append(s)
         meta.append({"client": s["client"], "cb": s["cb"], "fault": None, "at": None, "obs": o})
-    faults = ["eof", "reset", "writeerr", "garbage_eof", "undecodable_eof", "refuse3_eof", "refuse7_reset"]
+    faults = ["eof", "reset", "writeerr", "garbage_eof", "undecodable_eof", "refuse3_eof", "refuse7_reset", "partial_eof",
+              "partial_reset"]
     if thorough:
         faults += ["drainerr"]
     inj = []
@@ -65,6 +68,7 @@ def fault_specs(ctx):
             continue
         npos = o["npos"]
         fl = list(faults) + (["sorry"] if s["client"] == "ebyte" and s["cb"] == "ret" else [])
+        fl += ["overlong"] if s["client"] in ("actisense", "yd") and s["cb"] == "ret" else []
         for f in fl:
             sf = s
             if f in ("sorry", "refuse7_reset"):   # 30 s sleep / 35.5 s of back-off before the link is up again: longer recovery tail
@@ -75,6 +79,8 @@ def fault_specs(ctx):
             stride = 1 if (thorough or (s["cb"] == "ret" and f != "refuse3_eof")) else 2
             if f == "refuse7_reset" and not thorough:      # delays 0.5 .. 8, 10, 10 s: reaches the cap
                 stride = 4
+            if f in ("partial_reset", "overlong") and not thorough:
+                stride = 3
             for at in range(0, min(npos, MAX_POS) + 1, stride):
                 sp = dict(sf)
                 sp["inject"] = {"at": at, "ops": vloop.FAULTS[f]}
@@ -272,6 +278,28 @@ def judge(o, spec):
                 return {"key": "recover:write-error:not-reported",
                         "what": f"{c}: {what} error in send() at t={vt:.2f} on a connected client was not followed by "
                                 f"DISCONNECTED: {o['status']}"}
+        # frames the peer sends on a connection, before anything else than complete frames was sent on it, are delivered
+        # when the connection then stays undisturbed for 0.15 s (callbacks take at most 0.05 s per message)
+        dirty = set()
+        ev_times = sorted([t for t, _ in status] + [f_[0] for f_ in o["faults"]] + [x[0] for x in (o.get("wfaults") or [])])
+        for t, name, k, conn in o.get("feeds") or []:
+            if name != "frames":
+                dirty.add(conn)
+                continue
+            if conn in dirty:
+                continue
+            nxt = next((x for x in ev_times if x >= t - 1e-9), None)
+            if nxt is not None and nxt - t < 0.15:
+                dirty.add(conn)        # the connection is disturbed right after: what was in flight may be lost with it
+                continue
+            if [s for tt, s in status if tt < t - 1e-9][-1:] != [1]:
+                continue
+            hi = nxt if nxt is not None else o["vt_end"]
+            got = sum(1 for tt, _ in o["rcb"] if t - 1e-9 <= tt <= hi + 1e-9)
+            if got < k:
+                return {"key": "recover:frames-lost",
+                        "what": f"{c}: {k} complete frame(s) sent at t={t:.2f} on connection #{conn} (nothing but complete frames "
+                                f"was sent on it before, next disturbance at {nxt}) but {got} delivered in that time; status {o['status']}"}
         # new frames after the recovery are delivered (the tail feeds one frame 0.5 s before the end)
         t_tail = o["vt_end"] - float(spec.get("settle", 35.0)) - 0.5
         if not any(t >= t_tail - 1e-6 for t, _ in o["rcb"]):
